@@ -296,6 +296,64 @@ func checkC08(w *World) {
 		}
 	}
 	w.floor(P, "R08.5", 1)
+
+	// shared rules: the evaluator must read the tree as the grammar structures it
+	w.include(P, "C11", "R11.3")          // QName / NCName tokenisation incl. names that spell an axis, node type or operator
+	w.include(P, "C01", "R01.4", "R01.7") // abbreviated forms equal their expansions; absolute paths
+	w.include(P, "C02", "R02.4")          // operands/steps threaded as the production shape requires
+	// no panic while building an expression: bounds discipline of the hand-written grammar front end
+	docRule(P, "R08.6", "D", "grammar.Build and the Grammar accessors (hand-written front end of the generated parser) contain no slice or index expression with a computed bound that is not a loop counter, guarded by a length comparison, or a constant: error reporting must not panic on any input.")
+	nb := 0
+	w.forAllFuncs("grammar", func(fn *ssa.Function) {
+		nb++
+		bad := ""
+		allInstrs(fn, func(in ssa.Instruction) {
+			var idxs []ssa.Value
+			var base ssa.Value
+			switch x := in.(type) {
+			case *ssa.IndexAddr:
+				idxs, base = []ssa.Value{x.Index}, x.X
+			case *ssa.Index:
+				idxs, base = []ssa.Value{x.Index}, x.X
+			case *ssa.Slice:
+				if x.Low != nil {
+					idxs = append(idxs, x.Low)
+				}
+				if x.High != nil {
+					idxs = append(idxs, x.High)
+				}
+				base = x.X
+			default:
+				return
+			}
+			for _, idx := range idxs {
+				if k, isC := constInt(idx); isC {
+					if k == 0 && nonEmptyGuard(in.Block(), base) {
+						continue
+					}
+					if k == 0 {
+						if _, isAlloc := base.(*ssa.Alloc); isAlloc {
+							continue
+						}
+					}
+					if _, isSl := in.(*ssa.Slice); isSl && k == 0 {
+						continue
+					}
+					if _, isAlloc := base.(*ssa.Alloc); isAlloc {
+						continue
+					}
+					bad = fmt.Sprintf("constant index %d without a length guard at %s", k, w.pos(in.Pos()))
+					continue
+				}
+				if ascendingCounter(idx) || descendingCounter(idx) || isStringRangeIndex(idx, base) || lenGuarded(in.Block(), idx, base) {
+					continue
+				}
+				bad = "computed bound without a length guard at " + w.pos(in.Pos())
+			}
+		})
+		w.check(P, "R08.6", "bounds in grammar."+fn.Name(), fn.Pos(), bad == "", orElse(bad, "no unguarded computed index"))
+	})
+	w.floor(P, "R08.6", 5)
 }
 
 // valueOrigin names the call a value (transitively through extract/phi-free chains) comes from.
